@@ -442,9 +442,11 @@ pub enum WildCell {
     RowMin,
     Zero,
     PlusOne,
+    /// strictly the largest cell of its row (row maximum + 1)
+    RowMaxPlus,
 }
 
-pub const HAND_CONFIGS: [(&str, [usize; 5], WildCell); 8] = [
+pub const HAND_CONFIGS: [(&str, [usize; 5], WildCell); 10] = [
     ("uniform, N=-inf", [1, 1, 1, 1, 0], WildCell::NegInf),
     ("nonuniform(.1,.2,.3,.4,0), N=-inf", [1, 2, 3, 4, 0], WildCell::NegInf),
     ("wildcard(.2,.3,.1,.3,.1), N=row minimum", [2, 3, 1, 3, 1], WildCell::RowMin),
@@ -457,6 +459,10 @@ pub const HAND_CONFIGS: [(&str, [usize; 5], WildCell); 8] = [
     // even more skewed: a prefix of four rare symbols already weighs 2^-56 < machine epsilon, so partial sums of the
     // convolutions / Q-value maps fall below 2.2e-16 long before the last row
     ("very skewed(2^-14 x3, rest), N=-inf", [1, 1, 16381, 1, 0], WildCell::NegInf),
+    // the wildcard is drawn (frequency .1) AND scores strictly above every symbol of its row
+    ("wildcard(.2,.3,.1,.3,.1), N=row maximum + 1", [2, 3, 1, 3, 1], WildCell::RowMaxPlus),
+    // a non-wildcard symbol with background frequency exactly 0 but finite scores (hand-built matrix)
+    ("zero-frequency symbol(.5,0,.25,.25,0), N=-inf", [2, 0, 1, 1, 0], WildCell::NegInf),
 ];
 
 pub fn hand(hi: usize, ci: usize) -> Mat {
@@ -470,6 +476,7 @@ pub fn hand(hi: usize, ci: usize) -> Mat {
                 WildCell::RowMin => r.iter().cloned().fold(f32::INFINITY, f32::min),
                 WildCell::Zero => 0.0,
                 WildCell::PlusOne => 1.0,
+                WildCell::RowMaxPlus => r.iter().cloned().fold(f32::NEG_INFINITY, f32::max) + 1.0,
             };
             [r[0], r[1], r[2], r[3], n]
         })
@@ -534,7 +541,7 @@ pub fn menu_text(widths: &[usize], windows: &dyn Fn(usize) -> usize, pseudos: &[
 pub fn hand_text() -> String {
     let names: Vec<&str> = hand_rows().iter().map(|h| h.0).collect();
     format!(
-        "{} hand matrices ({}: integers, halves, tenths, narrow range, narrow range with offset, constant (small == large branch), constant rows, offset drift, frozen log-odds cells, wide range) x {} wildcard/background configurations (uniform N=-inf; (.1,.2,.3,.4,0) N=-inf; (.2,.3,.1,.3,.1) N=row minimum; (.2,.3,.1,.3,.1) N=-inf; (.1,.2,.3,.4,0) N=0.0; (.1,.2,.3,.4,0) N=+1.0; skewed (2^-10,2^-10,1-3*2^-10,2^-10,0) N=-inf: tails below machine epsilon; very skewed (2^-14 x3) N=-inf)",
+        "{} hand matrices ({}: integers, halves, tenths, narrow range, narrow range with offset, constant (small == large branch), constant rows, offset drift, frozen log-odds cells, wide range) x {} wildcard/background configurations (uniform N=-inf; (.1,.2,.3,.4,0) N=-inf; (.2,.3,.1,.3,.1) N=row minimum; (.2,.3,.1,.3,.1) N=-inf; (.1,.2,.3,.4,0) N=0.0; (.1,.2,.3,.4,0) N=+1.0; skewed (2^-10,2^-10,1-3*2^-10,2^-10,0) N=-inf: tails below machine epsilon; very skewed (2^-14 x3) N=-inf; (.2,.3,.1,.3,.1) N=row maximum + 1; (.5,0,.25,.25,0) with a zero-frequency symbol N=-inf)",
         names.len(),
         names.join(" "),
         HAND_CONFIGS.len()
